@@ -123,17 +123,20 @@ func run(idx int, line []byte) vh.CaseResult {
 	gate := rec.Arm("commit.start", nil)
 	objs := map[int]*badger.Sequence{}
 	inflight := map[int]*call{}
+	queued := map[int]*call{} // Next calls issued while their object was busy (waiting for Sequence.lock)
 	given := map[uint64]bool{}
 	conflictedRenewal := map[int]bool{}
 	info := map[string]int{}
 	key := []byte(fmt.Sprintf("seq-key-%d", idx))
 	finish := func() {
 		gate.Disarm()
-		for _, c := range inflight {
-			select {
-			case <-c.done:
-			case <-time.After(20 * time.Second):
-				vh.Fatalf("call still running after the gate was disarmed")
+		for _, m := range []map[int]*call{inflight, queued} {
+			for _, c := range m {
+				select {
+				case <-c.done:
+				case <-time.After(20 * time.Second):
+					vh.Fatalf("call still running after the gate was disarmed")
+				}
 			}
 		}
 	}
@@ -305,6 +308,83 @@ func run(idx int, line []byte) vh.CaseResult {
 			}
 			if r.err != nil {
 				info["conflicts"]++
+			}
+		case "nextQueued":
+			// a second goroutine calls Next while a call of the same object is inside its
+			// transaction (parked at the gate, holding Sequence.lock): it must wait
+			seq := objs[s.O]
+			c := &call{done: make(chan result, 1)}
+			before := gate.NumParked()
+			go func() {
+				v, err := seq.Next()
+				c.done <- result{val: v, err: err}
+			}()
+			queued[s.O] = c
+			deadline := time.Now().Add(40 * time.Millisecond)
+			for time.Now().Before(deadline) {
+				select {
+				case r := <-c.done:
+					delete(queued, s.O)
+					finish()
+					det["got"] = fmt.Sprintf("%d %v", r.val, r.err)
+					d := ""
+					if r.err == nil {
+						d = hand(r.val)
+					}
+					return fail("sm1:seq Next did not wait for the call of the same Sequence that is inside its transaction"+d, det)
+				default:
+				}
+				if gate.NumParked() > before {
+					finish()
+					return fail("sm1:seq Next started a lease transaction while a call of the same Sequence is inside its transaction", det)
+				}
+				time.Sleep(200 * time.Microsecond)
+			}
+			info["queued_next"]++
+		case "resume":
+			c := queued[s.O]
+			if c == nil {
+				vh.Fatalf("resume without queued call")
+			}
+			delete(queued, s.O)
+			var r result
+			parked, done := false, false
+			deadline := time.Now().Add(20 * time.Second)
+			for time.Now().Before(deadline) && !parked && !done {
+				select {
+				case r = <-c.done:
+					done = true
+				default:
+					if gate.NumParked() > len(inflight) {
+						c.txn = gate.ParkedArgs(gate.NumParked() - 1)[0]
+						parked = true
+					} else {
+						time.Sleep(50 * time.Microsecond)
+					}
+				}
+			}
+			switch {
+			case !parked && !done:
+				queued[s.O] = c
+				finish()
+				return fail("harness:timeout", det)
+			case parked:
+				inflight[s.O] = c
+				if s.Res != "parked" {
+					finish()
+					return fail("sm1:seq waiting Next renews the lease although numbers are left", det)
+				}
+			default:
+				if s.Res != "value" || r.err != nil || r.val != s.V {
+					finish()
+					det["got"] = fmt.Sprintf("%d %v", r.val, r.err)
+					return fail("sm1:seq waiting Next returned a wrong result", det)
+				}
+				if d := hand(r.val); d != "" {
+					finish()
+					return fail("sm1:seq Next"+d, det)
+				}
+				info["numbers"]++
 			}
 		case "restart":
 			if len(inflight) != 0 {
